@@ -197,7 +197,7 @@ fn oracle(case: &Case, obs: &mut Obs) -> Result<(), Fail> {
 		ensure_prop!(&decoded == want, "recompress:payload-changed", "{ctx}: tile {c} decodes to {} bytes ({}), source payload has {} bytes ({})", decoded.len(), util::hex_short(&decoded), want.len(), util::hex_short(want));
 	}
 	ensure_prop!(dec.tiles.len() == raw.len(), "recompress:extra-tiles", "{ctx}: output has {} tiles, source {}", dec.tiles.len(), raw.len());
-	// metadata (MBTiles keeps only a fixed set of keys: name and description are among them)
+	// metadata (MBTiles keeps a fixed set of keys)
 	// (with a harness-written source container the generated layout decides whether and under which
 	// name the document is stored; metadata through containers is C17's subject)
 	let from_memory = !matches!(case.source, Some((t, _)) if t.accepts(case.format, case.source_comp));
@@ -205,7 +205,7 @@ fn oracle(case: &Case, obs: &mut Obs) -> Result<(), Fail> {
 		let want: serde_json::Value = serde_json::from_str(m).unwrap();
 		if case.target == Target::Mbtiles {
 			let (_, meta) = vt::codec::mbtiles::decode(&path).map_err(|e| Fail::new("layout:undecodable", e))?;
-			for k in ["name", "description"] {
+			for k in ["name", "author", "type", "description", "version", "license"] {
 				if let Some(v) = want.get(k).and_then(|v| v.as_str()) {
 					ensure_prop!(meta.get(k).map(|s| s.as_str()) == Some(v), "recompress:metadata", "{ctx}: mbtiles metadata {k} is {:?}, source {v:?}", meta.get(k));
 				}
